@@ -41,6 +41,13 @@ func TestVerifBoundedTypeExpr(t *testing.T) {
 	gen.SetTypeParams([]*types.TypeParam{tp})
 	other.Scope().Insert(genTN)
 	genInt, _ := types.Instantiate(nil, gen, []types.Type{types.Typ[types.Int]}, false)
+	// generic type cur.Box[T any] struct{} of the package itself, instantiated with an imported type
+	tpOwn := types.NewTypeParam(types.NewTypeName(token.NoPos, cur, "T", nil), types.NewInterfaceType(nil, nil))
+	boxTN := types.NewTypeName(token.NoPos, cur, "Box", nil)
+	box := types.NewNamed(boxTN, types.NewStruct(nil, nil), nil)
+	box.SetTypeParams([]*types.TypeParam{tpOwn})
+	cur.Scope().Insert(boxTN)
+	boxFoo, _ := types.Instantiate(nil, box, []types.Type{foo}, false)
 	aliasTN := types.NewTypeName(token.NoPos, other, "Alias", nil)
 	alias := types.NewAlias(aliasTN, types.NewSlice(types.Typ[types.String]))
 	other.Scope().Insert(aliasTN)
@@ -55,7 +62,7 @@ func TestVerifBoundedTypeExpr(t *testing.T) {
 		{"basic:int", types.Typ[types.Int]}, {"basic:string", types.Typ[types.String]}, {"basic:float64", types.Typ[types.Float64]},
 		{"basic:unsafe.Pointer", types.Typ[types.UnsafePointer]},
 		{"named:own", bar}, {"named:imported", foo}, {"named:imported_same_package_name", foo2}, {"named:universe_error", errT},
-		{"named:type_arguments", genInt}, {"alias:imported", alias}, {"alias:any", anyT},
+		{"named:type_arguments", genInt}, {"named:own_generic_imported_argument", boxFoo}, {"alias:imported", alias}, {"alias:any", anyT},
 	}
 	v := func(name string, t types.Type) *types.Var { return types.NewVar(token.NoPos, nil, name, t) }
 	fld := func(name string, t types.Type, emb bool) *types.Var {
@@ -117,6 +124,22 @@ func TestVerifBoundedTypeExpr(t *testing.T) {
 			detail = denotes(expr, s.t, cur, imports, []*types.Package{other, other2})
 		}
 		if detail == "" {
+			// C04 "no undeclared import": every package the spelling mentions (the imports createASTTypeExpr recorded)
+			// is also referenced by collectImportsFromType, which decides what the generated file imports
+			ref := map[string]*Import{}
+			collectImportsFromType(s.t, cur.Path(), map[string]*Import{}, ref, NewVarPool())
+			for path := range imports {
+				if ref[path] == nil {
+					detail = "the spelling mentions package " + path + " but collectImportsFromType does not reference it (the generated file would not import it)"
+				}
+			}
+			if detail != "" {
+				mismatches++
+				byClause["imports_of_spelling_referenced"]++
+				if _, seen := firstOf["imports_of_spelling_referenced"]; !seen {
+					firstOf["imports_of_spelling_referenced"] = s.name + ": " + detail
+				}
+			}
 			continue
 		}
 		mismatches++
@@ -137,7 +160,7 @@ func TestVerifBoundedTypeExpr(t *testing.T) {
 	res.Evidence["evaluations"] = evals
 	res.Evidence["distinct_nontrivial"] = evals
 	res.Evidence["mismatching_types"] = mismatches
-	res.Evidence["rule"] = "types built from int/string/float64/unsafe.Pointer, an own named type, imported named types (two packages with one name), a generic instance, an alias, error, any, closed under pointer/slice/array/map/chan(3 directions)/func(with and without variadic)/struct(plain, tagged, embedded)/interface, one level (all) and a second level (all in thorough, a seeded 1/7 spread in quick); oracle: printed expression type-checked again must be types.Identical to the input"
+	res.Evidence["rule"] = "types built from int/string/float64/unsafe.Pointer, an own named type, imported named types (two packages with one name), a generic instance, an own generic type instantiated with an imported type, an alias, error, any, closed under pointer/slice/array/map/chan(3 directions)/func(with and without variadic)/struct(plain, tagged, embedded)/interface, one level (all) and a second level (all in thorough, a seeded 1/7 spread in quick); oracle: printed expression type-checked again must be types.Identical to the input; and every package the spelling mentions is referenced by collectImportsFromType"
 	res.emit()
 }
 
